@@ -292,8 +292,9 @@ func (f *FuncVC) bindLoops() bool {
 				}
 			}
 			if !found {
-				f.unsup(fmt.Sprintf("contract names loop %d which does not exist (stale)", n))
-				return false
+				// the loop contract no longer binds; the function is still
+				// verified against its pre/postconditions
+				f.warnings = append(f.warnings, fmt.Sprintf("STALE-LOOP-CONTRACT func=%s loop=%d", f.name(), n))
 			}
 		}
 	}
